@@ -7,7 +7,9 @@
     effConf                       ↔ `copy.deepcopy(_DEF_CONF) if config == {} else copy.deepcopy(config)`
     nodeConf                      ↔ the first half of `add_node`: default → class name → component name
     wloss / maxOf / prepLoss      ↔ `_prep_loss`  (duration-weighted mean loss, mix = loss / max)
-    gchan / gcolor                ↔ `_gcolor`     (`mpl.colors.to_hex`: `format(round(val*255), "02x")` per channel)
+    clamp01 / gchan / gcolor      ↔ `_gcolor`     (mix clamped to [0, 1]; `mpl.colors.to_hex`: `format(round(val*255), "02x")`)
+    quoteId / dotLex / renderedId ↔ `_q(name)` and Graphviz' reading of the quoted identifier
+    freshScale                    ↔ `sname = "Scale"; while sname in nodes: sname += "_"`
     expOf / niceSel / niceFloat   ↔ `_nice_float` (`"{:e}"` exponent, `round(x, nd)`, float `str`)
     diag                          ↔ `_diag` up to (not including) the call of Graphviz
 
@@ -214,8 +216,12 @@ def gchannels (m : Rat) : Except Err (Nat × Nat × Nat) :=
 def hexColor (c : Nat × Nat × Nat) : String :=
   String.ofList ('#' :: (hex2 c.1 ++ hex2 c.2.1 ++ hex2 c.2.2))
 
-/-- `_gcolor(mix)` with cold `#2120ff` = (33, 32, 255) and warm `#ff1210` = (255, 18, 16) -/
-def gcolor (m : Rat) : Except Err String := (gchannels m).map hexColor
+/-- `min(max(mix, 0.0), 1.0)` -/
+def clamp01 (m : Rat) : Rat := nmin (nmax m 0) 1
+
+/-- `_gcolor(mix)` with cold `#2120ff` = (33, 32, 255) and warm `#ff1210` = (255, 18, 16); the mix is clamped to
+    `[0, 1]` first (a loss that is negative by solver noise no longer makes `to_hex` raise) -/
+def gcolor (m : Rat) : Except Err String := (gchannels (clamp01 m)).map hexColor
 
 /-! ### `_nice_float` -/
 
@@ -357,7 +363,13 @@ def heatNode (rows : List (HeatRow Rat)) (name : String) (conf : Attrs) : Except
       .ok (aset (aset (aset conf "fillcolor" col) "fontcolor" "silver") "label"
             (name ++ "\n" ++ niceFloat r.loss ++ "W"))
 
-/-- `add_node(gr, name, bd_conf["node"], ldf)` -/
+/-- `if "label" not in conf: conf["label"] = name` — every node carries its component's name as explicit label
+    unless the configuration (or the heat map) gave it one -/
+def withLabel (name : String) (conf : Attrs) : Attrs :=
+  if ahas conf "label" then conf else aset conf "label" name
+
+/-- `add_node(gr, name, bd_conf["node"], ldf)`; the node identifier handed to pydot is `_q(name)`, which Graphviz
+    reads back as `name` (see `renderedId`) -/
 def mkNode (node : Option Sect) (ldf : Option (List (HeatRow Rat))) (c : CompIn) : Except Err DNode :=
   match node with
   | none => .error (.key "node")
@@ -366,11 +378,11 @@ def mkNode (node : Option Sect) (ldf : Option (List (HeatRow Rat))) (c : CompIn)
     | .error e => .error e
     | .ok conf =>
       match ldf with
-      | none => .ok { name := c.name, attrs := conf }
+      | none => .ok { name := c.name, attrs := withLabel c.name conf }
       | some rows =>
         match heatNode rows c.name conf with
         | .error e => .error e
-        | .ok conf' => .ok { name := c.name, attrs := conf' }
+        | .ok conf' => .ok { name := c.name, attrs := withLabel c.name conf' }
 
 def mkCluster (bd : Config) (ldf : Option (List (HeatRow Rat))) (gm : String × List CompIn) :
     Except Err DCluster :=
@@ -386,13 +398,20 @@ def mkCluster (bd : Config) (ldf : Option (List (HeatRow Rat))) (gm : String × 
         | .error e => .error e
         | .ok ns => .ok { name := "cluster_" ++ gm.1, label := gm.1, attrs := cconf, nodes := ns }
 
+def freshFrom (names : List String) : Nat → String → String
+  | 0, s => s
+  | fuel + 1, s => if s ∈ names then freshFrom names fuel (s ++ "_") else s
+
+/-- `sname = "Scale"; while sname in sys._g.attrs["nodes"]: sname += "_"` (at most one round per component) -/
+def freshScale (names : List String) : String := freshFrom names names.length "Scale"
+
 /-- the legend node -/
-def mkScale (gconf : Attrs) (ls : List Rat) : Except Err DNode :=
+def mkScale (names : List String) (gconf : Attrs) (ls : List Rat) : Except Err DNode :=
   let lab := niceFloat (maxOf ls) ++ "W|  |  | 0W"
   match aget gconf "rankdir" with
   | none => .error (.key "rankdir")
   | some rd =>
-    .ok { name := "Scale",
+    .ok { name := freshScale names,
           attrs := aset defGradient "label" (if rd = "TB" ∨ rd = "BT" then "{" ++ lab ++ "}" else lab) }
 
 /-- `_diag` up to the Graphviz call.  `comps`: `attrs["nodes"]` in insertion order; `edges`: parent → child
@@ -416,7 +435,7 @@ def diag (sysName : String) (comps : List CompIn) (edges : List (String × Strin
         | .ok top =>
           match (match heat with
                  | none => (.ok none : Except Err (Option DNode))
-                 | some h => (mkScale gconf (heatLosses h)).map some) with
+                 | some h => (mkScale (comps.map CompIn.name) gconf (heatLosses h)).map some) with
           | .error e => .error e
           | .ok sc =>
             match (if edges.isEmpty then (.ok [] : Except Err (List DEdge))
@@ -442,19 +461,53 @@ def DotGraph.nodeNames (d : DotGraph) : List String :=
 /-- every component node (cluster members, then top level) -/
 def DotGraph.allNodes (d : DotGraph) : List DNode := d.clusters.flatMap (·.nodes) ++ d.nodes
 
-/-! ### the un-modelled far end, as far as finding F23 needs it
+/-! ### node identifiers: `_q(name)` and how Graphviz reads it back
 
-`_diag` passes component names to `pydot.Node` / `pydot.Edge` as they are.  pydot 4 reads an un-quoted
-name `A:x` as node `A` with port `:x` (`Node.__init__`: first `:` at index `0 < idx < len − 1`), and writes edge
-endpoints `A:x` un-quoted, which Graphviz parses as node `A`, port `x`.  `renderedId` is the node identifier
-Graphviz ends up with **for names made of letters, digits, `_` and `:`**; other special characters (quotes,
-`<…>`, the DOT keywords `node`/`edge`/`graph`) go through more of pydot's quoting heuristics and are left to
-the harness' oracle. -/
-def renderedId (name : String) : String :=
-  let cs := name.toList
-  let pre := cs.takeWhile (· != ':')
-  if cs.head? = some '"' then name
-  else if 0 < pre.length ∧ pre.length + 1 < cs.length then String.ofList pre else name
+`_diag` hands pydot the identifier `_q(name) = '"' + name.replace('"', '\\"') + '"'` for every node and edge
+endpoint.  pydot passes a string that starts with `"` through untouched, and Graphviz' lexer reads a quoted
+string as: `\"` → `"`, a pair `\\` stays a pair, any other character (a lone backslash, a newline, `:`, …) is
+itself, the first un-escaped `"` ends it.  `renderedId` is that reading; it is the component's name again unless
+the name has an odd run of backslashes directly before a `"` or at its end (`a\`, `b\"c`): DOT has no way to write
+those, `dot` reports a syntax error (open finding F23f).  Not modelled: Graphviz stores identifiers that start
+with `%` as anonymous nodes (`%3`); such a node is still one node per component and shows its name through the
+explicit label. -/
+
+/-- `name.replace('"', '\\"')` -/
+def quoteBody : List Char → List Char
+  | [] => []
+  | c :: t => if c = '"' then '\\' :: '"' :: quoteBody t else c :: quoteBody t
+
+/-- `_q(name)` -/
+def quoteId (name : String) : String := String.ofList ('"' :: (quoteBody name.toList ++ ['"']))
+
+/-- Graphviz' reading of a quoted string, from just after the opening quote; `pend` = a backslash has just been
+    read and what it becomes depends on the next character.  `none` = not one complete quoted string (syntax
+    error / a different parse). -/
+def dotLex : Bool → List Char → Option (List Char)
+  | _, [] => none
+  | false, c :: t =>
+    if c = '"' then (if t.isEmpty then some [] else none)
+    else if c = '\\' then dotLex true t
+    else (dotLex false t).map (c :: ·)
+  | true, c :: t =>
+    if c = '"' then (dotLex false t).map ('"' :: ·)
+    else if c = '\\' then (dotLex false t).map (fun r => '\\' :: '\\' :: r)
+    else (dotLex false t).map (fun r => '\\' :: c :: r)
+
+/-- the node identifier Graphviz ends up with for a component called `name` -/
+def renderedId (name : String) : Option String :=
+  (dotLex false (quoteBody name.toList ++ ['"'])).map String.ofList
+
+/-- `bsOk false l`: no odd run of backslashes directly before a `"` or at the end of `l`
+    (`bsOk true l`: the same for `l` preceded by one more backslash) -/
+def bsOk : Bool → List Char → Bool
+  | false, [] => true
+  | true, [] => false
+  | false, c :: t => if c = '\\' then bsOk true t else bsOk false t
+  | true, c :: t => if c = '"' then false else bsOk false t
+
+/-- the names DOT can express -/
+def nameOk (name : String) : Bool := bsOk false name.toList
 
 def DotGraph.findNode (d : DotGraph) (n : String) : Option DNode :=
   ((d.clusters.flatMap (·.nodes)) ++ d.nodes).find? (fun x => x.name = n)
